@@ -273,7 +273,7 @@ func init() {
 			cur = transferOnce(cur, nil)
 			o.evals++
 			if t := textTree(cur).String(); t != t0 {
-				o.fail(fmt.Sprintf("text/shape of the cause tree differs after hop %d between knowing processes", k), "", firstDiff(t0, t))
+				o.fail(fmt.Sprintf("text/shape of the cause tree differs after hop %d between knowing processes", k), colonOnlyPrefix(o.e, cur), firstDiff(t0, t))
 				return
 			}
 			b := marshalEnc(cur)
@@ -294,6 +294,47 @@ var grpcPrefixRe = regexp.MustCompile(`rpc error: code = [A-Za-z]+(\(\d+\))? des
 func normKnown(t string) string {
 	t = strings.NewReplacer("\u2039", "", "\u203a", "", "?", "").Replace(t)
 	return grpcPrefixRe.ReplaceAllString(t, "")
+}
+
+// colonOnlyPrefix explains a text difference by the recorded finding colon-only-prefix: the origin holds a
+// wrapper of a type that has no encoder of its own (the generic path derives prefix / full message from
+// the texts) whose text is exactly ": " + the text of its cause, and the texts differ only in that such
+// separators are missing on the other side.
+func colonOnlyPrefix(e0, ek error) string {
+	has := false
+	visitAll(e0, func(x error) {
+		if c := errors.UnwrapOnce(x); c != nil && x.Error() == ": "+c.Error() && reflect.TypeOf(x).String() != "*errors.withMessage" {
+			has = true
+		}
+	})
+	if !has || ek == nil {
+		return ""
+	}
+	var a, b []error
+	visitAll(e0, func(x error) { a = append(a, x) })
+	visitAll(ek, func(x error) { b = append(b, x) })
+	if len(a) != len(b) {
+		return ""
+	}
+	norm := func(t string) string {
+		for strings.Contains(t, ": : ") {
+			t = strings.Replace(t, ": : ", ": ", 1)
+		}
+		return strings.TrimPrefix(t, ": ")
+	}
+	differs := false
+	for i := range a {
+		if ta, tb := a[i].Error(), b[i].Error(); ta != tb {
+			differs = true
+			if norm(ta) != norm(tb) {
+				return ""
+			}
+		}
+	}
+	if !differs {
+		return ""
+	}
+	return "colon-only-prefix"
 }
 
 func isGrpcStatusKey(k string) bool {
@@ -831,6 +872,9 @@ func init() {
 				if t := textTree(nxt).String(); t != t0 {
 					m := ""
 					m = knownTextDiff(o.e, nxt)
+					if m == "" {
+						m = colonOnlyPrefix(o.e, nxt)
+					}
 					o.fail(fmt.Sprintf("Error() text / shape at intermediary %d (unknown keys %v) differs from the origin", hi, h), m, firstDiff(t0, t))
 					return
 				}
@@ -930,7 +974,7 @@ func renamedJourney(origin, direct error, hops [][]string, t0 string) (string, s
 		renameFamilies(&in, keys, false)
 		want := familyTree(&in)
 		mid := errors.DecodeError(ctx, in)
-		if t := textTree(mid).String(); t != t0 && knownTextDiff(origin, mid) == "" {
+		if t := textTree(mid).String(); t != t0 && knownTextDiff(origin, mid) == "" && colonOnlyPrefix(origin, mid) == "" {
 			return fmt.Sprintf("Error() text / shape at intermediary %d differs from the origin", hi), firstDiff(t0, t)
 		}
 		out := errors.EncodeError(ctx, mid)
@@ -944,7 +988,7 @@ func renamedJourney(origin, direct error, hops [][]string, t0 string) (string, s
 	if a, b := shapeSx(direct).String(), shapeSx(fin).String(); a != b {
 		return "knowing receiver reconstructs a different tree than a direct receiver", firstDiff(a, b)
 	}
-	if a, b := verboseNoStacks(direct), verboseNoStacks(fin); a != b && knownTextDiff(origin, fin) == "" {
+	if a, b := verboseNoStacks(direct), verboseNoStacks(fin); a != b && knownTextDiff(origin, fin) == "" && colonOnlyPrefix(origin, fin) == "" {
 		return "%+v at the knowing receiver differs from direct receipt", firstDiff(a, b)
 	}
 	return "", ""
@@ -2297,6 +2341,11 @@ func init() {
 				o.fail(why, "", detail)
 				return
 			}
+			if why, detail := thirdPartyTracer(); why != "" {
+				o.evals++
+				o.fail(why, "", detail)
+				return
+			}
 		}
 		ev, extras := report.BuildSentryReport(o.e)
 		o.evals++
@@ -2941,4 +2990,48 @@ func typedNilChains() (string, string) {
 		}
 	}
 	return "", ""
+}
+
+// thirdPartyTracer: any layer with a StackTrace() method in the pkg/errors format is a stack-bearing layer:
+// it gets an exception of its own in the report, and when it is the innermost such layer the message is
+// prefixed with ITS file:line -- whatever library layers (with stacks of their own) are above it.
+func thirdPartyTracer() (string, string) {
+	leaf := ut.NewTracer("third party failure")
+	f0 := leaf.St[0]
+	wantPrefix := fmt.Sprintf("%s:%d: ", f0, f0)
+	for name, e := range map[string]error{
+		"bare":                  leaf,
+		"under a hint":          errors.WithHint(leaf, "h"),
+		"under WithStack":       errors.WithStack(leaf),
+		"under Wrap":            errors.Wrap(leaf, "ctx"),
+		"under pkg WithMessage": pkgerr.WithMessage(leaf, "ctx"),
+	} {
+		file, line, _, ok := errors.GetOneLineSource(e)
+		if !ok || fmt.Sprintf("%s:%d: ", file, line) != wantPrefix {
+			return "GetOneLineSource does not report the innermost stack-bearing layer when it is of a third-party type with StackTrace() (" + name + ")",
+				fmt.Sprintf("got %v %s:%d, want %s", ok, file, line, wantPrefix)
+		}
+		ev, _ := report.BuildSentryReport(e)
+		if !strings.HasPrefix(ev.Message, wantPrefix) {
+			return "the report message is not prefixed with the source of the innermost stack-bearing layer (third-party type with StackTrace(), " + name + ")",
+				fmt.Sprintf("%q, want prefix %q", firstLine(ev.Message), wantPrefix)
+		}
+		n := 0
+		for c := e; c != nil; c = errors.UnwrapOnce(c) {
+			if withstack.GetReportableStackTrace(c) != nil {
+				n++
+			}
+		}
+		if len(ev.Exception) != n {
+			return "the report does not have one exception per stack-bearing layer (third-party type with StackTrace(), " + name + ")", fmt.Sprint(len(ev.Exception), " vs ", n)
+		}
+	}
+	return "", ""
+}
+
+func firstLine(s string) string {
+	if i := strings.IndexByte(s, '\n'); i >= 0 {
+		return s[:i]
+	}
+	return s
 }
